@@ -121,6 +121,28 @@ func zzC01_raw(n int) {
 	}
 }
 
+// zzC01_appended: a valid signature followed by extra bytes (or cut short) is not accepted: only the one
+// 48-byte string verifies.
+func zzC01_appended(extra int) {
+	var x scalar
+	nondetFrStar(&x)
+	sk := newPrKeyBLSBLS12381(&x)
+	pk := sk.PublicKey()
+	msg := nondetBytes(2)
+	h := testHasher("verif-tag")
+	sig, _ := sk.Sign(msg, h)
+	var cand []byte
+	if extra >= 0 {
+		cand = append(append([]byte{}, sig...), nondetBytes(extra)...)
+	} else {
+		cand = sig[:len(sig)+extra]
+	}
+	ok, err := pk.Verify(cand, msg, h)
+	verifAssert(err == nil, "Verify returns no error")
+	verifAssert(ok == (extra == 0), "only the exact 48-byte signature verifies: trailing or missing bytes are rejected")
+	verifReach("appended")
+}
+
 // zzC01_other: a signature does not verify for another message, under another key, or with a hasher
 // for another domain tag; the identity signature and the identity key are rejected.
 func zzC01_other(which int) {
